@@ -33,18 +33,19 @@ func isDigits(s string, set string) bool {
 	return true
 }
 
-// decimal integer part without a redundant leading zero ("017" is octal in
-// Go and a decimal 17 for strconv: under-determined, not generated)
+// decimal digit string.  Redundant leading zeros are allowed: the language has
+// decimal, hexadecimal (0x) and binary (0b) integers and no octal form, so
+// "010" is written in base 10 and denotes ten ("literals denote exactly what is
+// written"); the reference is strconv.ParseInt(s, 10, 64).
 func isDecInt(s string) bool {
-	if !isDigits(s, "0123456789") {
-		return false
-	}
-	return s == "0" || s[0] != '0'
+	return isDigits(s, "0123456789")
 }
+
+func leadingZero(s string) bool { return len(s) > 1 && s[0] == '0' }
 
 // classify is the checker's own literal grammar:
 //
-//	dec   = "0" | nonzero digit { digit }
+//	dec   = digit { digit }                   (leading zeros allowed, still base 10)
 //	hex   = "0" ("x"|"X") hexdigit+          bin = "0" ("b"|"B") ("0"|"1")+
 //	float = dec "." digit+ [exp] | dec exp    exp = ("e"|"E") ["+"|"-"] digit+
 //
@@ -64,6 +65,9 @@ func classify(s string) (lc litCase, ok bool) {
 	switch {
 	case isDecInt(body):
 		form = "dec"
+		if leadingZero(body) {
+			form = "dec0" // decimal with redundant leading zeros
+		}
 		v, err := strconv.ParseInt(sign+body, 10, 64)
 		lc.Want, lc.I = "int", v
 		if err != nil {
@@ -126,6 +130,8 @@ var boundarySpellings = []string{
 	"1.0e+308", "1.0e+309", "17976931348623157e292", "2e308",
 	"4.9e-324", "5e-324", "2e-324", "1e-323", "1e-400", "-1e-400", "2.2250738585072014e-308",
 	"9007199254740993", "9007199254740993.0", "9007199254740992.0", "0.1", "0.30000000000000004", "123456789.125", "1.5e3", "1.5E-3",
+	"08", "09", "00", "000", "010", "0777", "0008", "0089", "-010", "-0019", "-08", "-00", "0123456789", "00000000000000000009", "-00000000000000000008",
+	"09223372036854775807", "09223372036854775808", "-09223372036854775808", "010.5", "01e1", "08.5", "-09e1", "00.0",
 	"0.0", "-0.0", "0e0", "10", "100", "255", "0xff", "0XFF", "0xFf", "0b1010", "0B1010", "-0b1010", "-0B11", "-0xff", "-255", "-1.25", "-1e2",
 }
 
@@ -219,6 +225,28 @@ var litCtxs = []*litCtx{
 	{ID: "LIST2", Pre: "[1, ", Post: "]", Extract: exLIST(1)},
 	{ID: "ARG", Pre: "f(", Post: ")", Extract: exARG(0)},
 	{ID: "SUBR", Pre: "1 - ", Post: "", Extract: exBinRHS},
+	{ID: "ADDL", Pre: "", Post: " + 1", Exec: true, Extract: exAddLHS},
+}
+
+// exAddLHS: the literal is the left operand of "L + 1"; executing it must give
+// the literal's value plus one (checked by execAdd1).
+func exAddLHS(st ast.Stmt) (ast.Expr, bool) {
+	e, ok := exE(st)
+	if !ok {
+		return nil, false
+	}
+	o, ok := e.(*ast.OpExpr)
+	if !ok {
+		return nil, false
+	}
+	a, ok := o.Op.(*ast.AddOperator)
+	if !ok || a.Operator != "+" {
+		return nil, false
+	}
+	if r, ok := a.RHS.(*ast.LiteralExpr); !ok || !r.Literal.IsValid() || r.Literal.Kind() != reflect.Int64 || r.Literal.Int() != 1 {
+		return nil, false
+	}
+	return a.LHS, true
 }
 
 func exBinRHS(st ast.Stmt) (ast.Expr, bool) {
@@ -322,7 +350,16 @@ func checkLit(lc *litCase, cx *litCtx) (class, detail string, nontrivial bool) {
 		if out != "ok" {
 			return "literal/" + lc.Form + "/exec", fmt.Sprintf("%q executed: %s", src, out), false
 		}
-		if ok, d := sameLit(lc, rv); !ok {
+		want := *lc
+		if cx.ID == "ADDL" {
+			switch lc.Want {
+			case "int":
+				want.I = lc.I + 1 // wraps like the VM's int64 addition
+			case "float":
+				want.F = lc.F + 1
+			}
+		}
+		if ok, d := sameLit(&want, rv); !ok {
 			return "literal/" + lc.Form + "/exec-value", fmt.Sprintf("%q executed: %s", src, d), false
 		}
 	}
